@@ -507,6 +507,8 @@ class Rewriter:
                     rep = 'match %s { Some(%s) => %s, None => None }' % (recv, pat, body)
                 elif name == 'map' and ty == 'option':
                     rep = 'match %s { Some(%s) => Some(%s), None => None }' % (recv, pat, body)
+                elif name == 'map' and ty == 'result':
+                    rep = 'match %s { Ok(%s) => Ok(%s), Err(e__) => Err(e__) }' % (recv, pat, body)
                 elif name == 'map_err' and ty == 'result':
                     rep = 'match %s { Ok(v__) => Ok(v__), Err(%s) => Err(%s) }' % (recv, pat, body)
                 elif name == 'unwrap_or_else' and ty == 'result':
@@ -752,6 +754,21 @@ class Rewriter:
         b = self.map_calls(b, r'(?<![\w.:])slice::from_raw_parts_mut', lambda m_, a: 'mk_slice(%s)' % ', '.join(a), 'R28:mk-slice')
         return b
 
+
+    # R29: the Alloc / Allocator trait glue of `&Bump`: thin forwarding to the inherent methods, slices as (address, length) pairs ----
+    def allocglue_rules(self, b):
+        c = self.cfg
+        b = self.sub('R29:inherent-call', r'\bBump::<MIN_ALIGN>::(dealloc|shrink|grow)\(self, ', r'self.\1(', b)
+        if c.get('trait_grow'):
+            # inside `Allocator::grow_zeroed`, `self.grow(..)` on `&&Bump` resolves to the TRAIT method of `&Bump` (it returns the slice)
+            b = self.sub('R29:trait-method', r'\bself\.grow\(', 'self.allocator_grow(', b)
+        b = self.map_calls(b, r'\bself\.(?:shrink|grow)', lambda m_, a: '%s(%s)' % (m_.group(0).rstrip('(').rstrip(), ', '.join(a + ['Ghost(blk)'])), 'R29:ghost-block')
+        b = self.map_calls(b, r'\bself\.allocator_grow', lambda m_, a: 'self.allocator_grow(%s)' % ', '.join(a + ['Ghost(blk)']), 'R29:ghost-block')
+        b = self.sub('R13:question-mark', r'let (mut )?(\w+) = ([^;?]+)\?;', r'let \1\2 = match \3 { Ok(v__) => v__, Err(e__) => { return Err(e__); } };', b)
+        b = self.sub('R29:zero-fill', r'\b(\w+)\.as_mut\(\)\[([^\]]+?)\.\.\]\.fill\(0\);', r'zero_fill_from(zs, \1, \2);', b)
+        b = self.map_calls(b, r'(?<![\w.:])ptr::slice_from_raw_parts_mut', lambda m_, a: 'mk_slice(%s)' % ', '.join(a), 'R29:mk-slice')
+        return b
+
     # R20: RawVec growth -- the arena seen through its Alloc interface as a ghost "buffer owned" state -----------------
     def rawvecgrow_rules(self, b):
         b = self.sub('R20:use-stmt', r'(?m)^\s*use crate::AllocErr;\s*$', '', b)
@@ -900,6 +917,8 @@ class Rewriter:
             b = self.sub('R21:needs_drop', r'\bmem::needs_drop::<\s*T\s*>\(\)', 'NEEDS_DROP()', b)
         if kind == 'slicefill':
             b = self.slicefill_rules(b)
+        if kind == 'allocglue':
+            b = self.allocglue_rules(b)
         if kind == 'chunkiter':
             # R24: the safe chunk iterator: the slice it builds is the (address, length) pair, checked to lie inside a held block
             b = self.sub('R24:raw-next', r'\bself\.raw\.next\(\)', 'self.raw.next(w)', b)
